@@ -118,4 +118,10 @@ pub fn generate(s: &mut Session, tier: &str, rng: &mut Rng) {
         s.run(&format!("addr.dec vm {}", hex(&bytes)));
         s.run(&format!("addr.trylen {} {}", hex(&bytes), rng.below(bytes.len() as u64 + 2)));
     }
+    // where addresses enter and travel: the local handshakes refuse what cannot be represented (empty / over-long names)
+    // before anything is sent, and a datagram carried inside a Trojan stream keeps its own address, not the binding's
+    crate::c13::handshake_refused(s);
+    for style in [0u64, 3] {
+        crate::c02::stream_udp_case(s, rng, "trojan", style, false);
+    }
 }
